@@ -1934,6 +1934,15 @@ func makeInterfaceArshaler(t reflect.Type) *arshaler {
 			va.SetZero()
 			return nil
 		}
+		if !va.IsNil() {
+			// Prevent infinite recursion if va is an interface holding
+			// a pointer to itself (as encoding/json does):
+			//	var v any
+			//	v = &v
+			if e := va.Elem(); e.Kind() == reflect.Pointer && e.Type().Elem() == t && e.UnsafePointer() == va.Addr().UnsafePointer() {
+				va.SetZero()
+			}
+		}
 		var v addressableValue
 		if va.IsNil() {
 			// Optimize for the any type if there are no special options.
